@@ -356,16 +356,30 @@ func (cv CertValidity) toTimeStruct() (config.CertificateValidity, error) {
 
 			all := durationRx.FindStringSubmatch(cv.Duration)
 
-			// schema already tells us it's conforming, so we ignore errors here
-			y, _ := strconv.Atoi(all[2])
-			m, _ := strconv.Atoi(all[4])
-			d, _ := strconv.Atoi(all[6])
+			// the schema guarantees digits only, but not that they fit an int
+			var ymd [3]int
+			for i, s := range []string{all[2], all[4], all[6]} {
+				if len(s) == 0 {
+					continue
+				}
+				ymd[i], err = strconv.Atoi(s)
+				if err != nil {
+					return out, errors.New(`config-v1: "duration" is out of range`)
+				}
+			}
 
-			out.Until = out.From.AddDate(y, m, d)
+			out.Until = out.From.AddDate(ymd[0], ymd[1], ymd[2])
 			out.IsSet = true
 		} else {
 			//both empty
 			out.Until = out.From.AddDate(DefaultValidityYears, 0, 0)
+		}
+	}
+
+	//neither X.509 nor the config hash can represent years beyond 9999
+	for _, t := range []time.Time{out.From, out.Until} {
+		if t.Year() < 0 || t.Year() > 9999 {
+			return out, errors.New(`config-v1: validity must lie within the years 0000 to 9999`)
 		}
 	}
 
